@@ -32,6 +32,10 @@ pub struct Sc {
     pub size: usize,
     pub content_seed: u64,
     pub range_support: bool,
+    /// a server without range support that says so explicitly (`Accept-Ranges: none`) instead of
+    /// leaving the header out; only meaningful when `range_support` is false
+    #[serde(default)]
+    pub announce_none: bool,
     pub script: Vec<Kind>,
     pub chunk: usize,
     pub initial_backoff_ms: u64,
@@ -125,7 +129,7 @@ impl Check for C18 {
         "fault_enumeration"
     }
     fn rule(&self) -> String {
-        "fault scripts over {200 full, 200 stalled after k bytes, 500, 503, 403, 404, 410, 400, 416} answered request by request, with and without Accept-Ranges; enumerated completely for resource sizes 0..2 bytes (quick: tries 1..2, scripts up to tries+2; thorough: tries 1..4) and seeded for sizes up to 256 KiB with randomised back-off, time-out and body chunking; non-trivial = at least one fault entry of the script was consumed by the client; distinct = distinct canonical trace".into()
+        "fault scripts over {200 full, 200 stalled after k bytes, 500, 503, 403, 404, 410, 400, 416} answered request by request, by a server that announces Accept-Ranges: bytes, announces Accept-Ranges: none, or leaves the header out; enumerated completely for resource sizes 0..2 bytes (quick: tries 1..2, scripts up to tries+2; thorough: tries 1..4) and seeded for sizes up to 256 KiB with randomised back-off, time-out and body chunking; non-trivial = at least one fault entry of the script was consumed by the client; distinct = distinct canonical trace".into()
     }
     fn assumptions(&self) -> Vec<String> {
         vec![
@@ -138,9 +142,9 @@ impl Check for C18 {
         json!({"real": ["tough HttpTransport::fetch", "RetryStream state machine", "may_retry / back-off arithmetic", "build_request (Range header)", "parse_response_code / ErrorClass", "tokio timers (paused clock)"], "stub": ["reqwest::Client::execute (hook H3)", "HTTP server model", "wall clock (tokio paused time)"]})
     }
     fn enumerated(&self, tier: Tier) -> u64 {
-        // sizes 0,1,2 x range support x tries x scripts up to tries+2
+        // sizes 0,1,2 x range header (absent, bytes, none) x tries x scripts up to tries+2
         let tries_max = if tier == Tier::Quick { 2 } else { 4 };
-        (1..=tries_max).map(|t| 3 * 2 * n_scripts(t + 2)).sum()
+        (1..=tries_max).map(|t| 3 * 3 * n_scripts(t + 2)).sum()
     }
     fn exhaustive(&self, tier: Tier) -> bool {
         tier == Tier::Thorough
@@ -148,16 +152,18 @@ impl Check for C18 {
     fn enumerate(&self, mut index: u64, tier: Tier) -> Option<Sc> {
         let tries_max = if tier == Tier::Quick { 2 } else { 4 };
         for t in 1..=tries_max {
-            let block = 3 * 2 * n_scripts(t + 2);
+            let block = 3 * 3 * n_scripts(t + 2);
             if index < block {
                 let size = (index % 3) as usize;
-                let range_support = (index / 3) % 2 == 1;
-                let si = index / 6;
+                let range_support = (index / 3) % 3 == 1;
+                let announce_none = (index / 3) % 3 == 2;
+                let si = index / 9;
                 return Some(Sc {
                     tries: t,
                     size,
                     content_seed: si,
                     range_support,
+                    announce_none,
                     script: script_of(si, size),
                     chunk: 1,
                     initial_backoff_ms: 100,
@@ -198,6 +204,7 @@ impl Check for C18 {
             size,
             content_seed: r.next_u64(),
             range_support: r.chance(1, 2),
+            announce_none: r.chance(1, 2),
             script,
             chunk: *r.pick(&[1usize, 7, 1000, 16384, 1 << 20]),
             initial_backoff_ms: *r.pick(&[0u64, 1, 100, 5000]),
@@ -244,6 +251,7 @@ impl Check for C18 {
         let seen: Arc<Mutex<Vec<Seen>>> = Arc::new(Mutex::new(Vec::new()));
         let script = sc.script.clone();
         let (range_support, chunk, timeout_ms) = (sc.range_support, sc.chunk.max(1), sc.timeout_ms);
+        let announce_none = sc.announce_none && !sc.range_support;
         let res2 = resource.clone();
         let seen2 = seen.clone();
         let start = Arc::new(Mutex::new(None::<tokio::time::Instant>));
@@ -306,6 +314,8 @@ impl Check for C18 {
                         let mut b = http::Response::builder().status(code);
                         if range_support {
                             b = b.header("Accept-Ranges", "bytes");
+                        } else if announce_none {
+                            b = b.header("Accept-Ranges", "none");
                         }
                         let r = b.body(reqwest::Body::wrap_stream(s)).unwrap();
                         Ok(reqwest::Response::from(r))
@@ -358,7 +368,7 @@ impl Check for C18 {
         let seen = seen.lock().unwrap().clone();
         let (expect, ref_requests) = reference(sc);
         o.sim_time_s = (virtual_ms / 1000) as u64;
-        o.ev(format!("cfg tries={} size={} range={} script={:?} chunk={} backoff=({},{},{}) timeout={}", sc.tries, sc.size, sc.range_support, sc.script, sc.chunk, sc.initial_backoff_ms, sc.max_backoff_ms, sc.backoff_factor_x10, sc.timeout_ms));
+        o.ev(format!("cfg tries={} size={} range={}/{} script={:?} chunk={} backoff=({},{},{}) timeout={}", sc.tries, sc.size, sc.range_support, sc.announce_none && !sc.range_support, sc.script, sc.chunk, sc.initial_backoff_ms, sc.max_backoff_ms, sc.backoff_factor_x10, sc.timeout_ms));
         o.ev(format!(
             "requests={:?} got={} end={:?} expect={expect:?}/{ref_requests} virtual_ms={virtual_ms}",
             seen.iter().map(|s| (s.range.clone(), s.at_ms)).collect::<Vec<_>>(),
